@@ -19,7 +19,11 @@
     `fista_qubViolated`; its rounding margin `(1+|ψ|)·tol` is carried as the explicit term
     `Σ_j 2γ_j t_j² margin_j` (`marginSum`), which vanishes for a fixed step size.
   * `pg_monotone`, `pg_rate` — acceleration disabled (sequence form): `F(x̂ₖ₊₁) ≤ F(x̂ₖ) + margin`,
-    `F(x̂ₖ) − F⋆ ≤ (‖x₀−x⋆‖² + Mₖ)/(2γₖ(k+1))`.
+    `F(x̂ₖ) − F⋆ ≤ (‖x₀−x⋆‖² + Mₖ)/(2γₖ(k+1))`; `pg_rate_model`, `pg_model_exact` — the same for the
+    callbacks of `Fista.run` with `disable_acceleration = true`.
+  * model-level Lyapunov steps: `C08.proxStage_post` (`E_k ≤ preQ_k + margin`, i.e. `fista_lyapunov`
+    for one pass of the model's prox / backtracking stage) and `C08.advance_top` (the generated
+    extrapolation statement turns `E_k` into `preQ_{k+1}`, using `tNext_identity`).
   * `prox_sub_of_contract` — `ProxContract` (x̂ minimises `h(u) + ‖u−v‖²/(2γ)`, the form proved
     componentwise for box / box+ℓ1 in `Props/C15`) implies the subgradient form used by `Spec`,
     for convex `h`.
@@ -280,7 +284,7 @@ theorem fista_rate_model (S : Spec n P ψ grad h dom) (hp : ParamOK pr) (hQ : Qu
   | inl tk => simp [AllOK]
   | inr s =>
     simp only [hi] at hfuel ⊢
-    obtain ⟨hinv, hk, hcbs⟩ := initState_top (xs := xs) (Fs := Fs) S hp x0 gV nan hx0 s hi
+    obtain ⟨hinv, hk, hcbs, _, _⟩ := initState_top (xs := xs) (Fs := Fs) S hp x0 gV nan hx0 s hi
     apply mainLoop_allOK S hp hQ T hsq hacc stop oot x0 y Sig errz0 _ _ s (by omega) (by omega)
     · rw [hcbs]; simpa [marginSum] using hinv
     · rw [hcbs]; trivial
@@ -323,6 +327,82 @@ theorem fista_rate_model_exact (S : Spec n P ψ grad h dom) (hp : ParamOK pr)
   have := hgen _ hall cb (List.mem_reverse.mpr hcb)
   unfold Rate at this
   simpa using this
+
+/-- **pg_monotone / pg_rate on the model** (`disable_acceleration = true`): for the callbacks of
+    `Fista.run` (newest first), `F(x̂ₖ) − F⋆ ≤ (‖x₀−x⋆‖² + Σ_{j≤k} 2γ_j(j+1)m_j)/(2γₖ(k+1))` and
+    `F(x̂ₖ) ≤ F(x̂ₖ₋₁) + mₖ` (see `AllOKPg`), for all stop schedules, budgets, Lipschitz modes. -/
+theorem pg_rate_model (S : Spec n P ψ grad h dom) (hp : ParamOK pr) (hQ : QubMax n ψ grad pr.Lmax)
+    (T : Target n ψ h dom xs Fs) (hacc : pr.disableAcceleration = true)
+    (stop : ℕ → Bool) (oot : Bool) (x0 y Sig errz0 gV : List α) (nan inf : α) (hx0 : x0.length = n)
+    (hfuel : (run P pr stop oot x0 y Sig errz0 gV nan inf).fuelOut = false) :
+    AllOKPg pr ψ h Fs (ipN n (toFn x0 - toFn xs) (toFn x0 - toFn xs))
+      (run P pr stop oot x0 y Sig errz0 gV nan inf).callbacks.reverse := by
+  unfold run at hfuel ⊢
+  cases hi : initState P pr x0 gV nan with
+  | inl tk => simp [AllOKPg]
+  | inr s =>
+    simp only [hi] at hfuel ⊢
+    obtain ⟨hinv, hk, hcbs, _, hx⟩ := initState_top (xs := xs) (Fs := Fs) S hp x0 gV nan hx0 s hi
+    apply mainLoop_allOKPg S hp hQ T hacc stop oot x0 y Sig errz0 _ _ s (by omega) (by omega)
+    · exact { cons := hinv.cons, hprev := fun hc => absurd hk hc,
+              hhead := fun cb' hc => (by rw [hcbs] at hc; cases hc),
+              hv := (by rw [hk]; simp),
+              hQ := (by rw [hk, hcbs, hx]; simp [marginSumPg]) }
+    · rw [hcbs]; trivial
+    · exact hfuel
+
+/-- Monotone decrease and O(1/k) bound without margin (fixed step or zero tolerance factor). -/
+theorem pg_model_exact (S : Spec n P ψ grad h dom) (hp : ParamOK pr)
+    (hQ : QubMax n ψ grad pr.Lmax) (T : Target n ψ h dom xs Fs)
+    (hacc : pr.disableAcceleration = true) (hzero : fixedLip pr = true ∨ pr.qubTol = 0)
+    (stop : ℕ → Bool) (oot : Bool) (x0 y Sig errz0 gV : List α) (nan inf : α) (hx0 : x0.length = n)
+    (hfuel : (run P pr stop oot x0 y Sig errz0 gV nan inf).fuelOut = false) :
+    (∀ cb ∈ (run P pr stop oot x0 y Sig errz0 gV nan inf).callbacks,
+      ψ cb.it.xhat + h cb.it.xhat - Fs
+        ≤ ipN n (toFn x0 - toFn xs) (toFn x0 - toFn xs) / (2 * cb.it.gamma * ((cb.k : α) + 1))) ∧
+    List.IsChain (fun a b : Callback α => ψ b.it.xhat + h b.it.xhat ≤ ψ a.it.xhat + h a.it.xhat)
+      (run P pr stop oot x0 y Sig errz0 gV nan inf).callbacks := by
+  have hall := pg_rate_model S hp hQ T hacc stop oot x0 y Sig errz0 gV nan inf hx0 hfuel
+  have hcb0 : ∀ c : Callback α, cbM pr c = 0 := by
+    intro c; unfold cbM; rcases hzero with hz | hz <;> simp [hz]
+  have hm0 : ∀ l : List (Callback α), marginSumPg pr l = 0 := by
+    intro l
+    induction l with
+    | nil => simp [marginSumPg]
+    | cons c l ih =>
+      unfold marginSumPg at ih ⊢
+      rw [List.map_cons, List.sum_cons, ih, add_zero, hcb0, mul_zero]
+  have hgen : ∀ l : List (Callback α),
+      AllOKPg pr ψ h Fs (ipN n (toFn x0 - toFn xs) (toFn x0 - toFn xs)) l →
+      (∀ cb ∈ l, RatePg ψ h Fs (ipN n (toFn x0 - toFn xs) (toFn x0 - toFn xs)) 0 cb) ∧
+      List.IsChain (fun a b : Callback α => ψ a.it.xhat + h a.it.xhat ≤ ψ b.it.xhat + h b.it.xhat) l := by
+    intro l
+    induction l with
+    | nil => intro _; exact ⟨fun cb hcb => (by cases hcb), List.isChain_nil⟩
+    | cons c l ih =>
+      intro hok
+      obtain ⟨h1, h2, h3⟩ := hok
+      obtain ⟨i1, i2⟩ := ih h3
+      refine ⟨?_, ?_⟩
+      · intro cb hcb
+        rcases List.mem_cons.mp hcb with rfl | hmem
+        · rwa [hm0] at h1
+        · exact i1 cb hmem
+      · cases l with
+        | nil => exact List.isChain_singleton _
+        | cons c' l' =>
+          refine List.isChain_cons_cons.mpr ⟨?_, i2⟩
+          have := h2 c' rfl
+          rw [hcb0, add_zero] at this
+          exact this
+  obtain ⟨g1, g2⟩ := hgen _ hall
+  refine ⟨?_, ?_⟩
+  · intro cb hcb
+    have := g1 cb (List.mem_reverse.mpr hcb)
+    unfold RatePg at this
+    simpa using this
+  · have := List.isChain_reverse.mpr g2
+    simpa [flip] using this
 
 /-- `ProxContract`: `x̂` minimises `u ↦ h(u) + ‖u − (x − γ∇ψ)‖²/(2γ)` over `dom h` (the form
     proved componentwise for box / box+ℓ1 steps in `Props/C15`: `projGradStepBox_is_prox`,
